@@ -273,3 +273,16 @@ Definition run_with_rooms (cf : cfg) (ins : list (option str * list ev)) (use_st
   let g := go cf ins use_stdin in
   let '(o, e, failed) := apply_rooms (g_events g) [] [] oroom eroom in
   (o, e, if failed then GErrIo else g_result g).
+
+(* ---------- src/main.rs ---------- *)
+(* rows go to standard output, diagnostics of --on-error=stderr to standard error; on failure the error
+   is printed on standard error and the process exits with status -1 (255) *)
+Record mout := { m_stdout : list byte; m_stderr : list byte; m_exit : Z }.
+Definition failure_message (r : gres) : list byte := [101; 114; 114; 111; 114; 10].   (* some non-empty text *)
+Definition main_model (cf : cfg) (ins : list (option str * list ev)) (use_stdin : bool)
+           (oroom eroom : option N) : mout :=
+  let '(o, e, r) := run_with_rooms cf ins use_stdin oroom eroom in
+  match r with
+  | GOk => {| m_stdout := o; m_stderr := e; m_exit := 0 |}
+  | _ => {| m_stdout := o; m_stderr := e ++ failure_message r; m_exit := 255 |}
+  end.
